@@ -40,6 +40,10 @@ func Arithm(cfg *Config, expr syntax.ArithmExpr) (int, error) {
 	case *syntax.UnaryArithm:
 		switch expr.Op {
 		case syntax.Inc, syntax.Dec:
+			if w, ok := expr.X.(*syntax.Word); !ok || w.Lit() == "" {
+				// TODO: support array elements, like a[0]++
+				return 0, fmt.Errorf("unsupported operand for arithmetic operator %q", expr.Op)
+			}
 			name := expr.X.(*syntax.Word).Lit()
 			old := atoi(cfg.envGet(name))
 			val := old
@@ -207,6 +211,10 @@ func atoiLargeBase(s string, base int64) int64 {
 }
 
 func (cfg *Config) assgnArit(b *syntax.BinaryArithm) (int, error) {
+	if w, ok := b.X.(*syntax.Word); !ok || w.Lit() == "" {
+		// TODO: support array elements, like a[0]=1
+		return 0, fmt.Errorf("unsupported operand for arithmetic operator %q", b.Op)
+	}
 	name := b.X.(*syntax.Word).Lit()
 	val := atoi(cfg.envGet(name))
 	arg_, err := Arithm(cfg, b.Y)
